@@ -102,6 +102,9 @@ def configs():
     add("empty-input", ["-a", f"a1={A1}", "-m", "5", "-o", "{d}/out.fq"], nreads=0)
     add("empty-paired", ["-a", f"a1={A1}", "-A", f"b2={A2}", "-m", "5", "--report=minimal", "-o", "{d}/o1.fq", "-p", "{d}/o2.fq"], layout="paired",
         nreads=0)
+    # per-adapter statistics kept for a whole run in each worker and added up afterwards: the 'other' class of adjacent bases (N before a
+    # 3' match) for a regular 3', an anywhere and a linked adapter, several such reads in every chunk
+    add("adjacent-stats", ["-b", f"w2={A2}", "-a", f"a1={A1}", "-a", "lk=TGCA...GGTACC", "-o", "{d}/out.fq"], reads="adjacent")
     # output format from an upper-case extension; FASTA headers that contain '>' (interleaved input, single-record chunks)
     add("fasta-upper-ext", ["-a", f"a1={A1}", "-o", "{d}/OUT.FA"])
     add("interleaved-fasta-gt", ["--interleaved", "-a", f"a1={A1}", "-A", f"b2={A2}", "-o", "{d}/out.fa"], layout="interleaved", fmt="fasta",
@@ -126,6 +129,12 @@ def reads_hist_ties():
     return [(f"t{i}", s_, _q(len(s_), i)) for i, s_ in enumerate(seqs)]
 
 
+def reads_adjacent():
+    seqs = ["GATTACANCCCCTTTTGG", "TTGACCAGNAAAAGGGG", "TGCAGATTACANGGTACC", "CCCCTTTTACGTACGT", "GGATCCNAAAAGGGGTT", "CATCATCANCCCCTTTT",
+            "TGCATTGACCNGGTACCA", "CATGGACNAAAAGGGG", "TTGGCCAANCCCCTTTTAC"]  # the last chunk always holds an 'other' base for w2
+    return [(f"j{i}", s_, _q(len(s_), i)) for i, s_ in enumerate(seqs)]
+
+
 def reads_rc():
     """Reads matching the linked adapter ACGT...GGGG, most of them stored reverse-complemented, so that several chunks
     (and therefore several workers) see matches on the reverse complement."""
@@ -141,7 +150,8 @@ def reads_rc():
 
 
 def write_inputs(cfg, wd):
-    r1 = {"rc": reads_rc, "hist-index": reads_hist_index, "hist-ties": reads_hist_ties, "gt": reads_gt}.get(
+    r1 = {"rc": reads_rc, "hist-index": reads_hist_index, "hist-ties": reads_hist_ties, "gt": reads_gt,
+          "adjacent": reads_adjacent}.get(
         cfg.get("reads"), reads_single)()[: cfg["nreads"]]
     r2 = reads_r2()[: cfg["nreads"]]
     if cfg.get("reads") == "nonempty":
@@ -303,12 +313,16 @@ def plan(tier):
         for n in names:
             if n not in ("single", "single-redirects", "paired"):
                 T.append((ix[n], 2, 2, None, "D", 2))
+                # dnaio cuts single-file FASTQ input after an even number of records, so two chunks of the 9-record inputs are 8 + 1
+                # records; three chunks are 4 + 4 + 1, which puts comparable work (and comparable statistics) on both workers
+                T.append((ix[n], 2, 3, None, "D", 1))
         T.append((ix["interleaved-fasta"], 2, 40, None, "D", 1))  # buffer so small that chunks hold single records
         T.append((ix["interleaved"], 2, 40, None, "D", 1))
         T.append((ix["linked-revcomp"], 2, 4, None, "D", 1))
         T.append((ix["interleaved-fasta-gt"], 2, 40, None, "D", 1))
         T.append((ix["history-index"], 2, 4, None, "D", 1))
         T.append((ix["history-ties"], 2, 4, None, "D", 1))
+        T.append((ix["adjacent-stats"], 2, 40, None, "D", 1))  # single-record chunks: every adapter's 'other' count is spread over the workers
         T.append((ix["single"], 2, 3, 1, "D", 1))
         T.append((ix["paired"], 2, 2, 1, "D", 1))
         T.append((ix["single-redirects"], 3, 3, None, "D", 1))
@@ -323,6 +337,8 @@ def plan(tier):
         T.append((ix["interleaved-fasta-gt"], 2, 40, None, "D", 2))
         T.append((ix["history-index"], 3, 5, None, "D", 2))
         T.append((ix["history-ties"], 3, 5, None, "D", 2))
+        T.append((ix["adjacent-stats"], 2, 40, None, "D", 2))
+        T.append((ix["adjacent-stats"], 3, 5, None, "D", 2))
         for n in ("single", "single-redirects", "paired", "demux"):
             T.append((ix[n], 3, 4, None, "D", 2))
             T.append((ix[n], 2, 4, None, "D", 3))
